@@ -45,7 +45,7 @@ def build(case):
             # changes length (ß) or that are not ASCII
             for pos in range(27, 243):
                 if rng.random() < 0.3:
-                    rec[pos] = rng.choice('abcdefghijxyz -,' if case.get('rawgap') else 'abcdefghijxyz ßÄöü-,')
+                    rec[pos] = rng.choice('abcdefghijxyz -,' if case.get('rawgap') or case.get('ascii7') else 'abcdefghijxyz ßÄöü-,')
         rec[0:10] = '2023010100'
         rec[10:11] = rng.choice('AAI')        # the index entry's own active / inactive code does not select rows
         rec[11:19] = 'IP0000T1'
@@ -69,6 +69,12 @@ def build(case):
             t = rng.choice([x for x in tables + ['IP0999T9'] if x != case['table']])
         width = 260
         body = [rng.choice(FILL) for _ in range(width)]
+        if case.get('ascii7'):
+            body = [ch if ' ' <= ch < '\x7f' else 'x' for ch in body]
+        if case.get('selfref') and i % 3 != 2:
+            # a column that REFERS to a table: the first eight value characters of the row (positions 11..18 of a
+            # compressed row, 19..26 of an expanded one) spell a table id — the requested one, or another
+            body[19:27] = list(case['table'] if i % 3 == 0 else tables[i % len(tables)])
         eff = ''.join(rng.choice('0123456789') for _ in range(10))
         code = rng.choice('AI')
         sub = rng.choice(subids[t]) if t in subids else '999'
@@ -175,13 +181,23 @@ def impl_eval(case):
                     os.mkdir(os.path.join(d, 'site'))
                     json.dump(site, open(os.path.join(d, 'site', 'cardutil.json'), 'w'))
                     os.environ['CARDUTIL_CONFIG'] = os.path.join(d, 'site')
+                # --out-encoding given, or left out: the CSV is then a text file in the platform's default encoding,
+                # whatever the extract's own character set is
+                oenc = None if case.get('noout') else 'utf-8'
                 with contextlib.redirect_stdout(io.StringIO()):
                     mci_ipm_param_to_csv.cli_run(in_filename=os.path.join(d, 'in.bin'), table_id=case['table'],
                                                  out_filename=os.path.join(d, 'out.csv'), in_encoding=case['codec'],
-                                                 out_encoding='utf-8', no1014blocking=not case['b'],
+                                                 out_encoding=oenc, no1014blocking=not case['b'],
                                                  expanded=bool(case['expanded']), config_file=os.path.join(d, 'my.json'))
-                got = list(csv.DictReader(open(os.path.join(d, 'out.csv'), encoding='utf-8', newline='')))
-                if got != [{k: v for k, v in e.items()} for e in expected]:
+                try:
+                    got = list(csv.DictReader(open(os.path.join(d, 'out.csv'), encoding=oenc, newline='')))
+                except UnicodeDecodeError:
+                    got = None
+                if got is None:
+                    why = ('the CSV written by the mci_ipm_param_to_csv command '
+                           + ('without --out-encoding is not text in the default encoding' if oenc is None
+                              else 'is not text in the requested output encoding'))
+                elif got != [{k: v for k, v in e.items()} for e in expected]:
                     why = 'CSV written by the mci_ipm_param_to_csv command with --config-file differs from the expected rows'
             finally:
                 if saved is None:
@@ -240,6 +256,9 @@ def explore(run, tier):
                 'codec': rng.choice(['latin_1', 'cp500']), 'b': rng.randrange(2), 'table': table}
         for expanded in (0, 1):
             cases.append(dict(base, expanded=expanded, csv=(i % 5 == 0)))
+        if i % 4 == 1:
+            for expanded in (0, 1):
+                cases.append(dict(base, expanded=expanded, selfref=True, nrows=max(base['nrows'], 6)))
         if i % 6 == 0:
             lay = gen_layout(rng)
             t = rng.choice(tables)
@@ -251,6 +270,11 @@ def explore(run, tier):
                 plain = dict(base, codec='latin_1')       # text free of characters the default CSV encoding lacks
                 cases.append(dict(plain, expanded=i % 24 // 12, table=t, layout=lay, cfgfile='file'))
                 cases.append(dict(plain, expanded=1 - i % 24 // 12, table=t, layout=lay, cfgfile='env'))
+                # an EBCDIC extract through the command without --out-encoding (7-bit content: any default encoding has it)
+                cases.append(dict(base, codec='cp500', ascii7=True, noout=True, expanded=i % 24 // 12, table=t, layout=lay,
+                                  cfgfile='file'))
+                cases.append(dict(base, codec='latin_1', ascii7=True, noout=True, expanded=1 - i % 24 // 12, table=t,
+                                  layout=lay, cfgfile='file'))
         if i % 100 == 7:
             cases.append(dict(base, expanded=i % 2, run=[1500, 2600][(i // 100) % 2]))
         if i % 10 == 0:
